@@ -78,3 +78,98 @@ pub fn take_ic_counters() -> (u64, u64, u64) {
         IC_STORES.with(|c| c.replace(0)),
     )
 }
+
+// ---------------------------------------------------------------------------------------------
+// Storage form of an object's indexed properties.
+
+/// `"I32" | "F64" | "EL" | "SE" | "SP"`: how the indexed properties of `object` are stored right now.
+#[must_use]
+pub fn array_storage_kind(object: &crate::JsObject) -> &'static str {
+    use crate::object::IndexedProperties;
+    match &object.borrow().properties().indexed_properties {
+        IndexedProperties::DenseI32(_) => "I32",
+        IndexedProperties::DenseF64(_) => "F64",
+        IndexedProperties::DenseElement(_) => "EL",
+        IndexedProperties::SparseElement(_) => "SE",
+        IndexedProperties::SparseProperty(_) => "SP",
+    }
+}
+
+// ---------------------------------------------------------------------------------------------
+// Status transitions of source text modules.
+
+thread_local! {
+    static MODULE_EVENTS_ON: Cell<bool> = const { Cell::new(false) };
+    static MODULE_EVENTS: std::cell::RefCell<Vec<(usize, &'static str, &'static str)>> = const { std::cell::RefCell::new(Vec::new()) };
+    static JOB_EVENTS_ON: Cell<bool> = const { Cell::new(false) };
+    static JOB_EVENTS: std::cell::RefCell<Vec<(char, u64)>> = const { std::cell::RefCell::new(Vec::new()) };
+    static JOB_IDS: std::cell::RefCell<Vec<(usize, u64)>> = const { std::cell::RefCell::new(Vec::new()) };
+    static JOB_NEXT_ID: Cell<u64> = const { Cell::new(1) };
+}
+
+/// Starts (and clears) or stops the recording of module status transitions.
+pub fn set_module_events(on: bool) {
+    MODULE_EVENTS_ON.with(|c| c.set(on));
+    MODULE_EVENTS.with(|v| v.borrow_mut().clear());
+}
+
+/// The recorded `(module id, status before, status after)` events, in order.
+#[must_use]
+pub fn take_module_events() -> Vec<(usize, &'static str, &'static str)> {
+    MODULE_EVENTS.with(|v| std::mem::take(&mut *v.borrow_mut()))
+}
+
+/// The id under which the status transitions of `module` are recorded (source text modules only).
+#[must_use]
+pub fn module_event_id(module: &crate::Module) -> Option<usize> {
+    module.verif_status_id()
+}
+
+pub(crate) fn module_event(id: usize, from: &'static str, to: &'static str) {
+    if MODULE_EVENTS_ON.with(Cell::get) && from != to {
+        MODULE_EVENTS.with(|v| v.borrow_mut().push((id, from, to)));
+    }
+}
+
+// ---------------------------------------------------------------------------------------------
+// Promise jobs of the default job executor.
+
+/// Starts (and clears) or stops the recording of promise-job events of `SimpleJobExecutor`.
+pub fn set_job_events(on: bool) {
+    JOB_EVENTS_ON.with(|c| c.set(on));
+    JOB_EVENTS.with(|v| v.borrow_mut().clear());
+    JOB_IDS.with(|v| v.borrow_mut().clear());
+    JOB_NEXT_ID.with(|c| c.set(1));
+}
+
+/// The recorded events: `('e', id)` a promise job was enqueued, `('r', id)` it is about to run
+/// (`id` = running number of the enqueue; 0 for a job that was enqueued before recording started).
+#[must_use]
+pub fn take_job_events() -> Vec<(char, u64)> {
+    JOB_EVENTS.with(|v| std::mem::take(&mut *v.borrow_mut()))
+}
+
+/// `address` identifies the job between its enqueue and its run (the address of its closure; it can be
+/// reused by a later job once this one has run).
+pub(crate) fn job_event(kind: char, address: usize) {
+    if !JOB_EVENTS_ON.with(Cell::get) {
+        return;
+    }
+    let id = JOB_IDS.with(|ids| {
+        let mut ids = ids.borrow_mut();
+        let known = ids.iter().position(|(a, _)| *a == address);
+        if kind == 'e' {
+            let id = JOB_NEXT_ID.with(|c| c.replace(c.get() + 1));
+            if let Some(i) = known {
+                ids[i].1 = id;
+            } else {
+                ids.push((address, id));
+            }
+            id
+        } else {
+            known.map_or(0, |i| ids.swap_remove(i).1)
+        }
+    });
+    JOB_EVENTS.with(|v| v.borrow_mut().push((kind, id)));
+}
+
